@@ -47,6 +47,8 @@ def gen(ctx):
         c = dict(kind="blk1", hist=hist, b=b, T=rng.randint(1, 6), rule=rule, dtype=rng.choice(["int32", "int64", "uint8"]))
         if rng.random() < 0.15 and divisible(c):
             c["nested"] = 1         # the block rule itself runs a block evolution of the same width and dtype
+        if rng.random() < 0.2 and divisible(c):
+            c["aborted"] = rng.randint(1, max(1, 2 * (N // b)))      # an earlier evolution of these sizes died after that many rule calls
         yield c
     for _ in range(ctx.n(300, 3000)):
         b0, b1 = rng.choice([1, 2, 3, 3, 4, 5, 6]), rng.choice([1, 2, 2, 3, 4, 5, 6])
@@ -66,6 +68,8 @@ def gen(ctx):
             c["inplace"] = 1
         if rng.random() < 0.15 and divisible(c):
             c["nested"] = 1
+        if rng.random() < 0.2 and divisible(c):
+            c["aborted"] = rng.randint(1, max(1, 2 * (R // b0) * (C // b1)))
         yield c
 
 
@@ -86,6 +90,24 @@ def run(c, rule=None):
     ca = np.array(c["hist"], dtype=c["dtype"])
     nested = dict(shape=ca.shape[1:], dtype=ca.dtype, b=c["b"]) if c.get("nested") else None
     rule = rule or BRule(c["rule"], inplace=bool(c.get("inplace")), nested=nested)
+    if c.get("aborted"):
+        # an earlier block evolution of the same sizes was aborted by its rule (an unknown state, say) part-way through a step;
+        # the caller caught that and carries on: the partition of the next evolution is complete all the same
+        from ..prelude import Abort
+        st = {"k": 0}
+
+        def failing(n, t):
+            st["k"] += 1
+            if st["k"] > c["aborted"]:
+                raise Abort("unknown state")
+            return n
+        try:
+            if c["kind"] == "blk1":
+                cpl.evolve_block(ca[-1:].copy(), block_size=c["b"], timesteps=4, apply_rule=failing)
+            else:
+                cpl.evolve2d_block(ca[-1:].copy(), block_size=tuple(c["b"]), timesteps=4, apply_rule=failing)
+        except Exception:  # noqa
+            pass
     try:
         if c["kind"] == "blk1":
             res = cpl.evolve_block(ca, block_size=c["b"], timesteps=c["T"], apply_rule=rule)
